@@ -44,6 +44,14 @@ REPL_T2 = {"name": "replication-2n-2crash", "consts": {"Node": "{n1, n2}", "Init
 CONF_T = {"name": "reconfig-3n-join", "consts": {"InitVoters": "{n1, n2}", "MaxTerm": 2, "MaxLog": 5, "MaxInflight": 1, "MaxElections": 1, "MaxCmds": 0, "MaxCfgReqs": 1, "EdAddPromote": "{n3}"},
           "invariants": CONF_INV, "timeout": 2400, "may_timeout": True}
 
+SNAP_INV = ["Inv_C09", "Inv_C12", "Inv_C15", "Inv_C19", "Inv_C03", "Inv_C02", "Inv_C04"]
+SNAP_Q = {"name": "snapshot-2n", "consts": {"Node": "{n1, n2}", "InitVoters": "{n1, n2}", "MaxTerm": 2, "MaxLog": 7, "MaxInflight": 1, "MaxElections": 1, "MaxCmds": 4, "MaxSnaps": 1},
+          "invariants": SNAP_INV, "timeout": 900}
+SNAP_T = {"name": "snapshot-2n-lag", "consts": {"Node": "{n1, n2}", "InitVoters": "{n1, n2}", "MaxTerm": 3, "MaxLog": 8, "MaxInflight": 1, "MaxElections": 2, "MaxCmds": 5, "MaxSnaps": 2, "MaxCrash": 1},
+          "invariants": SNAP_INV, "timeout": 2400, "may_timeout": True}
+SIM_SNAP = {"consts": {"MaxTerm": 8, "MaxLog": 16, "MaxCmds": 9, "MaxCrash": 1, "MaxInflight": 2, "MaxElections": 6, "Orphans": "TRUE", "Reduce": "FALSE", "MaxSnaps": 3},
+            "num": 100, "depth": 90}
+SIM_SNAP_T = dict(SIM_SNAP, num=1500, depth=110)
 SIM_CORE = {"consts": {"MaxTerm": 12, "MaxLog": 12, "MaxCmds": 5, "MaxCrash": 2, "MaxInflight": 2, "MaxElections": 12, "Orphans": "TRUE", "Reduce": "FALSE"},
             "num": 120, "depth": 60}
 SIM_CORE_T = dict(SIM_CORE, num=2000, depth=80)
@@ -54,10 +62,21 @@ SIM_CONF = {"consts": {"Node": "{n1, n2, n3, n4}", "InitVoters": "{n1, n2, n3}",
 SIM_CONF_T = dict(SIM_CONF, num=1500, depth=90)
 
 
-def plan(preds, mcq, mct, attacks, sim=("core",), level="model_checking", assumptions=()):
-    sims = {"core": (SIM_CORE, SIM_CORE_T), "conf": (SIM_CONF, SIM_CONF_T)}
+E3 = {"ldr": True, "poll": True, "fsm": True}
+FUZZ = {
+    "core": {"nodes": [1, 2, 3], "voters": [1, 2, 3], "nonvoters": [], "eager": E3, "steps": 120, "crash": 0.3, "fail": 0.4, "reconfig": 0, "snapshot": 0, "maxCmds": 8},
+    "conf": {"nodes": [1, 2, 3, 4], "voters": [1, 2, 3], "nonvoters": [], "eager": E3, "steps": 160, "crash": 0.15, "fail": 0.3, "reconfig": 0.8, "snapshot": 0, "maxCmds": 6},
+    "snap": {"nodes": [1, 2, 3], "voters": [1, 2, 3], "nonvoters": [], "eager": E3, "steps": 200, "crash": 0.2, "fail": 0.4, "reconfig": 0, "snapshot": 1.0, "maxCmds": 14},
+    "all": {"nodes": [1, 2, 3, 4], "voters": [1, 2, 3], "nonvoters": [], "eager": E3, "steps": 220, "crash": 0.2, "fail": 0.3, "reconfig": 0.5, "snapshot": 0.8, "maxCmds": 12},
+}
+
+
+def plan(preds, mcq, mct, attacks, sim=("core",), level="model_checking", assumptions=(), fuzz=None, runs=(40, 600)):
+    fuzz = fuzz if fuzz is not None else sim
+    sims = {"core": (SIM_CORE, SIM_CORE_T), "conf": (SIM_CONF, SIM_CONF_T), "snap": (SIM_SNAP, SIM_SNAP_T)}
     return {"level": level, "preds": preds, "mc": {"quick": mcq, "thorough": mcq + mct},
             "sims": {"quick": [sims[k][0] for k in sim], "thorough": [sims[k][1] for k in sim]},
+            "fuzz": {"quick": [dict(FUZZ[k], runs=runs[0]) for k in fuzz], "thorough": [dict(FUZZ[k], runs=runs[1]) for k in fuzz]},
             "attacks": attacks, "assumptions": list(assumptions)}
 
 
@@ -74,6 +93,8 @@ PLANS = {
     "C08": plan(["C08_OneVoterDelta", "C08_ConfigOnlyWhenSafe"], [CONF_Q12, CONF_Q21], [CONF_T], ["G_ConfigCommittedFirst", "G_OwnTermBeforeConfig"], sim=("conf",)),
     "C11": plan(["C11_OnlyVotersCampaign", "C11_OnlyVotersLead", "C11_PromoteAfterRound", "C11_StopOnlyWhenRemoved", "C11_DemotedLeaderStepsDown"],
                 [CONF_Q12, CONF_Q21], [CONF_T], ["G_NonVoterNoElection", "G_PromoteAfterRound", "G_StepDownWhenDemoted", "G_MajorityOfVoters"], sim=("conf",)),
+    "C09": plan(["C09_SnapshotCommitted", "C09_NoViewInvalidation", "C03_FsmIsCommittedPrefix", "C03_FsmNotAhead"], [SNAP_Q], [SNAP_T], ["FixD5"], sim=("snap",)),
+    "C12": plan(["C12_LabelOK"], [SNAP_Q], [SNAP_T], ["FixD4"], sim=("snap", "conf")),
     "C19": plan(["C19_Ordered", "C19_LatestIsNewest", "C19_Monotone"], [REPL_Q3, REPL_Q2], [REPL_T3, REPL_T2], ["G_ConsistencyCheck", "G_FollowerOwnTerm"], sim=("core", "conf")),
 }
 
